@@ -410,7 +410,7 @@ def loop_exits_only_at_head(body, h):
         if b in ok_src:
             continue
         for s2 in body.succs(b):
-            if s2 not in blocks and not body.blocks[s2].get('cleanup'):
+            if s2 not in blocks and not body.blocks[s2].get('cleanup') and body.blocks[s2]['term']['k'] != 'unreachable':
                 return False
     return True
 
@@ -449,6 +449,90 @@ def range_insert_loops(ctx, sr, target=('S', 'dirty')):
     return out
 
 
+def loop_desc_in(evs, func, head):
+    """range description recorded when the loop (func, head) was entered on this event list (last entry)"""
+    d = None
+    for ev in evs:
+        if ev[0] == 'loop-head' and ev[1] == func and ev[2] == head and len(ev) > 4:
+            d = ev[4]
+    return d
+
+
+def cell_store_loops(ctx, sr):
+    """{(func, head): set of row descriptors} for loops (MIR loops that can only be left when the
+    iterator is exhausted, and for_each-style closure loops) in which EVERY iteration stores a cell
+    (map.insert at cell level on the grid) at the column given by the element of the unadapted range
+    the loop iterates.  Row descriptor: 'cursor-row' (the cursor row at entry of the method) or
+    ('elem', lo key, hi key, incl) (the element of an enclosing range loop)."""
+    if '_cell_store_loops' in sr:
+        return sr['_cell_store_loops']
+    from .values import IterV
+    prog = ctx.prog
+    eng = sr['engine']
+    by = {}
+    for sg in sr['segments']:
+        by.setdefault((sg['func'], sg['head']), []).append(sg)
+    out = {}
+    for (func, head), sgs in by.items():
+        body = prog.bodies.get(func)
+        if body is None:
+            continue
+        if isinstance(head, int):
+            if not loop_exits_only_at_head(body, head):
+                continue
+        elif not (isinstance(head, tuple) and head and head[0] == 'for_each'):
+            continue
+        rows = set()
+        ok = True
+        for sg in sgs:
+            st = sg['st']
+            pre, lev = seg_events(dict(sg, kind='backedge'))
+            d = loop_desc_in(pre + lev[:0], func, head) or loop_desc_in(st.event_list(), func, head)
+            if d is None or d[4] or not (isinstance(d[1], NumV) and isinstance(d[2], NumV)):
+                ok = False
+                break
+            hit = False
+            for ev in lev:
+                if ev[0] != 'map.insert' or not ev[1] or ev[1][0] != 'S' or len(ev[1]) != 3 or ev[1][1] != 'buffer':
+                    continue
+                col = ev[2]
+                if not (isinstance(col, NumV) and col.sym is not None and col.k == 0):
+                    continue
+                it = st.vn.get(('itersym', col.sym))
+                if not (isinstance(it, IterV) and it.kind == 'range' and not it.ops and isinstance(it.args[0], NumV) and isinstance(it.args[1], NumV)):
+                    continue
+                if (it.args[0].key(), it.args[1].key(), bool(it.args[2])) != (d[1].key(), d[2].key(), bool(d[3])):
+                    continue
+                row = row_of_path(ev[1])
+                y0 = st.vn.get(('entry', 'y'))
+                if isinstance(row, NumV) and isinstance(y0, NumV) and eng.prove_cmp(st, 'eq', row, y0) is True:
+                    rows.add('cursor-row')
+                    hit = True
+                elif isinstance(row, NumV) and row.sym is not None and row.k == 0:
+                    it2 = st.vn.get(('itersym', row.sym))
+                    if isinstance(it2, IterV) and it2.kind == 'range' and not it2.ops and isinstance(it2.args[0], NumV) and isinstance(it2.args[1], NumV):
+                        rows.add(('elem', it2.args[0].key(), it2.args[1].key(), bool(it2.args[2])))
+                        hit = True
+            if not hit:
+                ok = False
+                break
+        if ok and rows:
+            out[(func, head)] = rows
+    sr['_cell_store_loops'] = out
+    return out
+
+
+def range_covers(eng, st, d, lo_d, hi_d):
+    """does the iterated range d = ('range', lo, hi, incl, ops) contain [lo_d, hi_d) (hi_d exclusive)"""
+    if d is None or d[4] or not (isinstance(d[1], NumV) and isinstance(d[2], NumV)):
+        return False, 'not a plain range'
+    lo, hi, incl = d[1], d[2], bool(d[3])
+    ok1, w1 = plt.prove_rel(eng, st, 'le', lo, lambda s: lo_d(s) if callable(lo_d) else lo_d)
+    hi_x = NumV(hi.sym, hi.k + 1, hi.ty) if incl else hi
+    ok2, w2 = plt.prove_rel(eng, st, 'ge', hi_x, lambda s: hi_d(s) if callable(hi_d) else hi_d)
+    return (ok1 and ok2), (w1 or w2)
+
+
 def dirty_marks(ctx, sr, evs):
     """dirty marks on an event list: ('one', row) / ('range', lo, hi, incl); a loop that inserts every
     element of a range counts as the range"""
@@ -478,6 +562,7 @@ def r_dirty(ctx, chk, funcs, rule='R-DIRTY'):
     prog = ctx.prog
     results = {}
     eps_d = set()
+    pend_ranges = set()
     for seg in all_segments(sr, funcs):
         st = seg['st']
         pre, evs = seg_events(seg)
@@ -532,6 +617,13 @@ def r_dirty(ctx, chk, funcs, rule='R-DIRTY'):
                             covered = True
                 if not covered and seg['kind'] == 'backedge' and isinstance(cur_y, NumV) and eng.prove_cmp(st, 'eq', cur_y, row) is True:
                     covered = 'deferred'
+                if not covered and seg['kind'] == 'backedge' and isinstance(row, NumV) and row.sym is not None and row.k == 0:
+                    # the row is the element of an enclosing range loop: fine if the whole range is marked after that loop
+                    from .values import IterV as _IterV
+                    it_ = st.vn.get(('itersym', row.sym))
+                    if isinstance(it_, _IterV) and it_.kind == 'range' and not it_.ops and isinstance(it_.args[0], NumV) and isinstance(it_.args[1], NumV):
+                        covered = 'deferred-range'
+                        pend_ranges.add((seg['ep'], it_.args[0].key(), it_.args[1].key(), bool(it_.args[2])))
             key = (short(func), '%s (line-ordinal %s)' % (what, line_ord(prog, func, line)))
             d = results.setdefault(key, dict(ok=True, n=0, why='', line=line, func=func, deferred=False))
             d['n'] += 1
@@ -550,6 +642,41 @@ def r_dirty(ctx, chk, funcs, rule='R-DIRTY'):
         chk.instance(rule, key[0], key[1], d['ok'], detail=d['why'] or '%d visits, every written row covered%s' % (d['n'], ' (cursor row deferred to the mark after the loop)' if d['deferred'] else ''),
                      span=dict(file=body.span['file'], line=d['line'] or body.span['line']),
                      what='a row whose appearance changes is not in the dirty set: ' + d['why'])
+    # rows written in a loop over a range and marked only after it: every exit path that went through
+    # such a loop must mark the whole range afterwards
+    by_ep = {}
+    for (epn, lok, hik, incl) in pend_ranges:
+        by_ep.setdefault(epn, []).append((lok, hik, incl))
+    for epn, rngs in sorted(by_ep.items()):
+        bad = []
+        cnt = 0
+        for seg in all_segments(sr, {epn}):
+            if seg['kind'] != 'exit' or seg['ep'] != epn:
+                continue
+            st = seg['st']
+            evs = st.event_list()
+            for i, ev in enumerate(evs):
+                if ev[0] != 'loop-head' or len(ev) < 5 or ev[4] is None or ev[4][4]:
+                    continue
+                lo, hi, incl = ev[4][1], ev[4][2], bool(ev[4][3])
+                if not (isinstance(lo, NumV) and isinstance(hi, NumV)) or (lo.key(), hi.key(), incl) not in rngs:
+                    continue
+                cnt += 1
+                okc = False
+                for m in dirty_marks(ctx, sr, evs[i + 1:]):
+                    if m[0] == 'range' and isinstance(m[1], NumV) and isinstance(m[2], NumV) and eng.prove_le(st, m[1], lo) is True:
+                        if bool(m[3]) == incl or (m[3] and not incl):
+                            okh = eng.prove_le(st, hi, m[2]) is True
+                        else:       # the mark excludes its end, the loop includes it
+                            okh = eng.prove_cmp(st, 'lt', hi, m[2]) is True
+                        if okh:
+                            okc = True
+                if not okc:
+                    bad.append('[%s] rows %s..%s written in a loop are not all marked after it' % (seg['label'], term(eng, st, lo), term(eng, st, hi)))
+                break
+        chk.instance(rule, short(epn), 'rows written in a range loop are marked after the loop', cnt > 0 and not bad,
+                     detail='; '.join(sorted(set(bad))[:2]) or '%d exit paths through such a loop' % cnt, span=prog.bodies[epn].span,
+                     what='; '.join(sorted(set(bad))[:2]) or 'no exit path through the loop was found')
     # exit clause for deferred marks
     ndef = 0
     for f in sorted({lf for d in results.values() if d['deferred'] for lf in d.get('loopfuncs', {d['func']})}):
@@ -567,18 +694,52 @@ def r_dirty(ctx, chk, funcs, rule='R-DIRTY'):
             # after the last loop-head of f, the cursor row current at exit must be marked
             last = max(i for i, ev in enumerate(evs) if ev[0] == 'loop-head' and ev[1] == f)
             cy = get(eng, st, 'cursor', 'y')
-            ok = False
-            for ev in evs[last:]:
-                if ev[0] == 'set.insert' and ev[1] == ('S', 'dirty') and isinstance(ev[2], NumV) and isinstance(cy, NumV) and eng.prove_cmp(st, 'eq', ev[2], cy) is True:
-                    ok = True
-                if ev[0] == 'set.extend' and ev[1] == ('S', 'dirty'):
-                    ok = True
-            if not ok:
+            # the row that was pending when the loop was left is the cursor row at the loop head
+            # (the exit path runs from the cut head): it must be covered by a mark that follows
+            hd = evs[last]
+            yh = st.vn.get(('lh', hd[1], hd[2], 'y'))
+            if not mark_covers(eng, st, dirty_marks(ctx, sr, evs[last + 1:]), yh if isinstance(yh, NumV) else cy):
                 bad.append(seg['label'])
         ndef += 1
         chk.instance(rule, short(f), 'cursor row marked after the loop', cnt > 0 and not bad, detail='%d exit paths through the loop; unmarked: %s' % (cnt, bad[:2]),
                      span=prog.bodies[f].span, what='rows written inside the loop are left unmarked on exit (%s)' % bad[:1])
+        # the pending row is always the current cursor row: an iteration that may move the cursor to
+        # another row must mark the row it leaves (the cursor row at the loop head) before the back edge
+        badm = []
+        nseg = 0
+        for sg in sr['segments']:
+            if sg['func'] != f or sg['ep'] not in funcs:
+                continue
+            st = sg['st']
+            yh = st.vn.get(('lh', f, sg['head'], 'y'))
+            ye = get(eng, st, 'cursor', 'y')
+            if not (isinstance(yh, NumV) and isinstance(ye, NumV)):
+                continue
+            nseg += 1
+            if eng.prove_cmp(st, 'eq', yh, ye) is True:
+                continue
+            pre, lev = seg_events(dict(sg, kind='backedge'))
+            if not mark_covers(eng, st, dirty_marks(ctx, sr, lev), yh):
+                badm.append('[%s] the cursor leaves row %s for row %s without marking it' % (sg['entry'], term(eng, st, yh), term(eng, st, ye)))
+        chk.instance(rule, short(f), 'a row left by the cursor inside the loop is marked before the next iteration', nseg > 0 and not badm,
+                     detail='; '.join(sorted(set(badm))[:2]) or '%d iteration paths' % nseg, span=prog.bodies[f].span,
+                     what='rows written in earlier iterations stay unmarked: ' + '; '.join(sorted(set(badm))[:2]))
     return Cnt(len(results), eps_d)
+
+
+def mark_covers(eng, st, marks, row):
+    if not isinstance(row, NumV):
+        return False
+    lines = get(eng, st, 'lines')
+    for m in marks:
+        if m[0] == 'one' and isinstance(m[1], NumV) and eng.prove_cmp(st, 'eq', m[1], row) is True:
+            return True
+        if m[0] == 'range' and isinstance(m[1], NumV) and isinstance(m[2], NumV):
+            if eng.prove_le(st, m[1], row) is True and eng.prove_cmp(st, 'le' if m[3] else 'lt', row, m[2]) is True:
+                return True
+            if isinstance(lines, NumV) and eng.prove_le(st, m[1], NumV(None, 0, 'u32')) is True and eng.prove_le(st, lines, m[2]) is True:
+                return True
+    return False
 
 
 def is_anon(v):
